@@ -412,7 +412,28 @@ def apply_foreach(body, rule, counts):
     return body
 
 
-def build_fn(block, orig, canary=False, mutant=None):
+def auto_invariants(body, bm, names):
+    """[(name, place, offset)] for the immutable bindings `let NAME = PLACE;` of body whose NAME is listed in names."""
+    res = []
+    for mm in re.finditer(r'\blet\s+([a-z_][A-Za-z0-9_]*)\s*(?::[^=;]+)?=\s*([^;{}]+);', body):
+        if not bm[mm.start()] or mm.group(1) not in names:
+            continue
+        place = mm.group(2).strip()
+        while place[:1] in '&*':
+            place = place[1:].strip()
+        if re.match(r'^[A-Za-z_][A-Za-z0-9_]*(\s*\.\s*[A-Za-z0-9_]+)*(\s*\.\s*len\s*\(\s*\))?$', place):
+            res.append((mm.group(1), place, mm.start()))
+    return res
+
+
+def new_let_names(cur_text, base_text):
+    """names bound by an immutable simple `let` in cur_text that are bound nowhere in base_text."""
+    rx = r'\blet\s+([a-z_][A-Za-z0-9_]*)\s*(?::[^=;]+)?='
+    old = set(re.findall(rx, strip_comments(base_text))) | set(re.findall(r'\blet\s+mut\s+([a-z_][A-Za-z0-9_]*)', strip_comments(base_text)))
+    return sorted(set(re.findall(rx, strip_comments(cur_text))) - old)
+
+
+def build_fn(block, orig, canary=False, mutant=None, auto_inv=None):
     """returns (generated_text, info) for one fn block; orig = original item text from /repo."""
     info = {'rewrites': {}, 'labels': []}
     text = strip_comments(orig)
@@ -453,10 +474,32 @@ def build_fn(block, orig, canary=False, mutant=None):
     if body != ';':
         heads = loop_heads(body)
         bm = code_mask(body)
+        # PROOF REPAIR (only requested by the driver after a failure on changed text, see vcheck.run_unit): for a NEW immutable
+        # binding `let x = PLACE;` (PLACE = a field path, optionally ending in .len()) that precedes a loop using x, the loop gets the
+        # extra invariant `x == PLACE`.  Verus checks it like any other invariant, so this can only turn a failing proof into a
+        # successful one when the fact really holds (hoisted reads, introduced temporaries): it never hides a failure.
+        extra = {}
+        for (nm, place, pos) in auto_invariants(body, bm, auto_inv or []):
+            for k, (kp, ob, cb) in enumerate(heads, 1):
+                if kp > pos and re.search(r'(?<![A-Za-z0-9_])' + re.escape(nm) + r'(?![A-Za-z0-9_])', body[kp:cb]):
+                    extra.setdefault(k, []).append('%s == %s' % (nm, place))
+                    info.setdefault('auto_invariants', []).append('loop %d: %s == %s' % (k, nm, place))
         for k, lines in block.loops.items():
             if k < 1 or k > len(heads):
                 raise GenError('fn %s: loop %d not found (%d loops)' % (block.name, k, len(heads)))
+            lines = list(lines)
+            if k in extra:
+                for i, l in enumerate(lines):
+                    mm = re.search(r'\binvariant\b', l)
+                    if mm:
+                        lines[i] = l[:mm.end()] + ' ' + ', '.join(extra[k]) + ',' + l[mm.end():]
+                        break
+                else:
+                    lines.insert(0, 'invariant ' + ', '.join(extra[k]) + ',')
+                del extra[k]
             ins.append((heads[k - 1][1], 0, '\n' + '\n'.join(lines) + '\n'))
+        for k, invs in extra.items():
+            ins.append((heads[k - 1][1], 0, '\ninvariant ' + ', '.join(invs) + ',\n'))
         for where, lines in block.at:
             # every line of a proof hint carries the marker /*@H*/ so that a failure located on it can be told apart from a
             # failure of a contract clause or of the real code (a failing hint means "the proof script does not apply")
@@ -574,8 +617,8 @@ def fn_key(b):
     return (ty + '::' + nm) if ty else nm
 
 
-def generate(tpl_path, repo, canary=False, mutant=None):
-    """returns (text, meta).  mutant = (fn_name, mutant_name) or None."""
+def generate(tpl_path, repo, canary=False, mutant=None, auto_inv=None):
+    """returns (text, meta).  mutant = (fn_name, mutant_name) or None.  auto_inv = {fn_key: [local names]} (proof repair, see build_fn)."""
     sources, parts = parse_template(tpl_path)
     files = {}
     for a, rel in sources.items():
@@ -609,7 +652,7 @@ def generate(tpl_path, repo, canary=False, mutant=None):
                 meta['mutants'].append({'fn': fn_key(b), 'name': mn})
                 if mutant is not None and tuple(mutant) == (fn_key(b), mn):
                     mu = (mn, mrx, mrepl)
-            gen, info = build_fn(b, orig, canary=canary, mutant=mu)
+            gen, info = build_fn(b, orig, canary=canary, mutant=mu, auto_inv=(auto_inv or {}).get(fn_key(b)))
         else:
             gen, info = build_item(b, orig)
         start_line = len(out_lines) + 1
@@ -618,7 +661,7 @@ def generate(tpl_path, repo, canary=False, mutant=None):
         end_line = len(out_lines)
         rec = {'name': b.rename or b.name, 'key': fn_key(b), 'orig_name': b.name, 'container': b.container, 'file': sources[b.alias], 'line': line_no,
                'sha256': sha(orig), 'gen_lines': [start_line, end_line], 'props': b.props,
-               'rewrites': info['rewrites'], 'orig_loc': orig.count('\n') + 1,
+               'rewrites': info['rewrites'], 'orig_loc': orig.count('\n') + 1, 'auto_invariants': info.get('auto_invariants', []),
                'no_termination_claim': any('exec_allows_no_decreases_clause' in a for a in b.attrs)}
         for r, k in info['rewrites'].items():
             meta['rewrites'][r] = meta['rewrites'].get(r, 0) + k
